@@ -68,7 +68,7 @@ func genMixedRequest(r *core.Rand, id int, limit int, allowFaults bool) ReqSpec 
 		if sp.Proto == "ws" && size > 300 {
 			size = 300
 		}
-		sp.Msgs = append(sp.Msgs, MsgSpec{Size: size, Seed: r.U64() >> 8})
+		sp.Msgs = append(sp.Msgs, MsgSpec{Size: size, Seed: r.U64() >> 8, Plain: sp.Compress && sp.Proto != "http" && r.Chance(1, 4)})
 	}
 	if sp.Codec == "body" {
 		size := r.Pick(0, 1, 63, 64, 65, 1000, limit-1, limit, limit+1, 2*limit+1)
